@@ -72,12 +72,20 @@ def run(cfg, faults=None, keep_events=True, workdir=None, kill_at=None):
             with open(dest, "wb") as f:
                 f.write(OLD)
             os.chmod(dest, 0o640)
-        if cfg["part_present"]:
+        if cfg["part_present"] == "link" and cfg["dest_present"]:
+            # what a crash between link() and unlink() of an earlier overwrite=False save leaves behind:
+            # the part name is a second hard link to the destination's inode
+            os.link(dest, part)
+        elif cfg["part_present"]:
             with open(part, "wb") as f:
                 f.write(STALE)
             os.chmod(part, 0o604)      # a mode no rule of the property produces: reuse of this inode shows in the result
         chunks = chunks_for(cfg["body"], cfg["text_mode"])
         new = b"".join(c.encode("utf-8") if isinstance(c, str) else c for c in chunks)
+
+        dest_ino = {}
+        if cfg["dest_present"]:
+            dest_ino["ino"] = fsio.REAL_LSTAT(dest).st_ino
 
         def classify():
             out = {}
@@ -93,7 +101,8 @@ def run(cfg, faults=None, keep_events=True, workdir=None, kill_at=None):
                 st = fsio.REAL_LSTAT(part)
                 with fsio.REAL_IO_OPEN(part, "rb") as f:
                     data = f.read()
-                out["part"] = {"st": "stale" if data == STALE else "file", "size": len(data)}
+                leftover_link = cfg["part_present"] == "link" and st.st_ino == dest_ino.get("ino")
+                out["part"] = {"st": "stale" if data == STALE or leftover_link else "file", "size": len(data)}
             except FileNotFoundError:
                 out["part"] = {"st": "absent", "size": 0}
             return out
@@ -105,9 +114,10 @@ def run(cfg, faults=None, keep_events=True, workdir=None, kill_at=None):
         raised, body_raised = "", False
         ip = fsio.Interposer(d, classify, faults)
         ip.kill_at = kill_at
+        saver = fileutils.atomic_save(dest, **kw)
         with ip:
             try:
-                with fileutils.atomic_save(dest, **kw) as f:
+                with saver as f:
                     for i, c in enumerate(chunks):
                         if cfg["raise_at"] == i:
                             body_raised = True
@@ -125,21 +135,24 @@ def run(cfg, faults=None, keep_events=True, workdir=None, kill_at=None):
             except BaseException as ex:
                 raised = core.exc_name(ex)
         last = classify()
-        retried, retry_ok = False, False
+        retried, retry_ok, retry_mode, retry_same = False, False, 0, bool(cfg.get("retry_same_object"))
         if raised:
             retried = True
             try:
-                with fileutils.atomic_save(dest, **kw) as f:
+                # an immediate retry: with a fresh saver, or (as a caller holding on to the AtomicSaver would) the same object
+                with (saver if retry_same else fileutils.atomic_save(dest, **kw)) as f:
                     for c in chunks:
                         f.write(c)
-                retry_ok = classify()["dest"]["st"] == "new" or (new == OLD)
+                after = classify()
+                retry_ok = after["dest"]["st"] == "new" or (new == OLD)
+                retry_mode = after["dest"]["mode"]
             except BaseException:
                 retry_ok = False
         tr = {"cfg": {"overwrite": cfg["overwrite"], "overwrite_part": cfg["overwrite_part"], "rm_part_on_exc": cfg["rm_part_on_exc"],
                       "perms": cfg["perms"], "umask_default": 0o666 & ~cfg["umask"]},
               "init": init, "total": len(new), "ev": ip.events + [{"name": "end", "target": "", "faulted": False, "n": 0,
                                                                     "dest": last["dest"], "part": last["part"]}],
-              "raised": bool(raised), "raised_name": raised, "body_raised": body_raised, "retried": retried, "retry_ok": retry_ok,
+              "raised": bool(raised), "raised_name": raised, "body_raised": body_raised, "retried": retried, "retry_ok": retry_ok, "retry_mode": retry_mode, "retry_same_object": retry_same,
               "scenario": cfg, "faults": sorted((faults or {}).items())}
         return tr
     finally:
